@@ -1,5 +1,6 @@
 import Nstd.Common.Basic
 import Nstd.Seq.Model
+import Nstd.Seq.PtrModel
 /-
   Line protocol of the Seq area (List / PoolList / Array of int, two variables of each kind).
   One op per line.  Observation line:
@@ -99,24 +100,122 @@ def parseOp (ws : List String) : Option Op :=
   | ["aback", v] => do pure (.aback (← v.toNat?))
   | _ => none
 
+/-! The pointer-level model (PtrModel.lean) of the two List variables is run in lockstep: every List op is
+    translated into heap-level `insert/remove/clear/sort` calls (composite ops — list insertion, copy,
+    assignment — into the sequence of `insert`s the C++ code performs; `swap` exchanges the two heaps).  After
+    every op the chain, the values, the back links, the free list and the block count read off the heap must
+    equal the chain model's; otherwise the observation line gets the token `ptr-diverges` (which the
+    implementation never prints, so the correspondence fails). -/
+
+structure PtrPair where
+  h0 : Ptr.PList := Ptr.init
+  h1 : Ptr.PList := Ptr.init
+  ok : Bool := true
+
+def PtrPair.get (pp : PtrPair) (v : Nat) : Ptr.PList := if v = 0 then pp.h0 else pp.h1
+def PtrPair.set (pp : PtrPair) (v : Nat) (h : Ptr.PList) : PtrPair := if v = 0 then { pp with h0 := h } else { pp with h1 := h }
+
+def ptrRunOps (h : Ptr.PList) : List Ptr.POp → Option Ptr.PList
+  | [] => some h
+  | op :: ops => match Ptr.step h op with | some h' => ptrRunOps h' ops | none => none
+
+def insertsAt (k : Nat) (vs : List Int) : List Ptr.POp :=
+  (List.range vs.length).zip vs |>.map (fun (i, v) => Ptr.POp.insert (k + i) v)
+
+/-- heap-level calls performed by a List op (`none` = the op does not touch the heaps) -/
+def ptrOps (st : State) (op : Op) : Option (Nat × List Ptr.POp) :=
+  let other (v : Nat) := (st.getL (1 - v)).vals
+  match op with
+  | .lappend v x => some (v, [.insert (st.getL v).size x])
+  | .lprepend v x => some (v, [.insert 0 x])
+  | .linsert v k x => some (v, [.insert k x])
+  | .linsertl v k => some (v, insertsAt k (other v))
+  | .lappendl v => some (v, insertsAt (st.getL v).size (other v))
+  | .lprependl v => some (v, insertsAt 0 (other v))
+  | .lremove v k => some (v, [.remove k])
+  | .lremovev v x => some (v, if (st.getL v).findPos x ≠ (st.getL v).size then [.remove ((st.getL v).findPos x)] else [])
+  | .lremoveFront v => some (v, [.remove 0])
+  | .lremoveBack v => some (v, [.remove ((st.getL v).size - 1)])
+  | .lclear v => some (v, [.clear])
+  | .lassign v => some (v, .clear :: insertsAt 0 (other v))
+  | .lsort v => some (v, [.sort])
+  | _ => none
+
+/-- read the chain off the heap: values and node ids front to back, checking the back links -/
+def ptrChain (h : Ptr.PList) : Option (List Int × List Nat) :=
+  let rec go (fuel : Nat) (a : Nat) (pr : Option Nat) (vs : List Int) (ids : List Nat) : Option (List Int × List Nat) :=
+    if a = 0 then (if h.prev 0 = pr then some (vs.reverse, ids.reverse) else none)
+    else match fuel with
+      | 0 => none
+      | fuel + 1 =>
+        if h.prev a ≠ pr then none
+        else match h.next a with
+          | some n => go fuel n (some a) (h.val a :: vs) ((a - 1) :: ids)
+          | none => none
+  go h.size h.begin none [] []
+
+def ptrFree (h : Ptr.PList) : List Nat :=
+  let rec go (fuel : Nat) (f : Option Nat) (acc : List Nat) : List Nat :=
+    match fuel, f with
+    | _, none => acc.reverse
+    | 0, some _ => (0 :: acc).reverse
+    | fuel + 1, some a => go fuel (h.prev a) ((a - 1) :: acc)
+  go (4 * h.nblocks + 1) h.free []
+
+def ptrAgrees (h : Ptr.PList) (s : LState) : Bool :=
+  match ptrChain h with
+  | some (vs, ids) => vs == s.vals && ids == s.ids && ptrFree h == s.free && h.nblocks == s.nblocks && h.size == s.size
+  | none => false
+
+/-- re-tabulate the heap functions (the update closures would otherwise pile up over a history); addresses
+    beyond the allocated blocks are never written and keep the initial contents -/
+def compact (h : Ptr.PList) : Ptr.PList :=
+  let n := 4 * h.nblocks + 1
+  let tv := (Array.range n).map h.val
+  let tp := (Array.range n).map h.prev
+  let tn := (Array.range n).map h.next
+  { h with val := fun k => tv.getD k 0, prev := fun k => tp.getD k none, next := fun k => tn.getD k none }
+
+/-- advance the heaps by one op of the machine (called only for ops the chain model accepted) -/
+def ptrAdvance (pp : PtrPair) (before after : State) (op : Op) : PtrPair :=
+  let pp1 : PtrPair :=
+    match op with
+    | .lswap v => (pp.set v (pp.get (1 - v))).set (1 - v) (pp.get v)
+    | .lcopy v =>
+      match ptrRunOps Ptr.init (insertsAt 0 (before.getL (1 - v)).vals) with
+      | some h => pp.set v h
+      | none => { pp with ok := false }
+    | _ =>
+      match ptrOps before op with
+      | none => pp
+      | some (v, ops) =>
+        match ptrRunOps (pp.get v) ops with
+        | some h => pp.set v h
+        | none => { pp with ok := false }
+  let pp2 := { pp1 with h0 := compact pp1.h0, h1 := compact pp1.h1 }
+  { pp2 with ok := pp2.ok && ptrAgrees pp2.h0 after.l0 && ptrAgrees pp2.h1 after.l1 }
+
 def allShown : List Show := [.l 0, .l 1, .p 0, .p 1, .a 0, .a 1]
 
 def line (s : State) (ret : Option Int) (n d : Nat) (sh : List Show) : String :=
   let r := match ret with | some x => toString x | none => "-"
   " | ".intercalate (s!"r={r} n={n} d={d}" :: sh.map (showOne s))
 
-def stepLine (st : State) (ws : List String) : State × String :=
+def stepLine (stp : State × PtrPair) (ws : List String) : (State × PtrPair) × String :=
+  let (st, pp) := stp
   match ws with
-  | ["reset"] => ({}, line {} none 0 0 allShown)
-  | ["dump"] => (st, line st none 0 0 allShown)
+  | ["reset"] => (({}, {}), line {} none 0 0 allShown)
+  | ["dump"] => (stp, line st none 0 0 allShown ++ (if pp.ok then "" else " ptr-diverges"))
   | _ =>
     match parseOp ws with
-    | none => (st, "bad-op")
+    | none => (stp, "bad-op")
     | some op =>
       match step st op with
-      | some r => (r.st, line r.st r.ret r.allocs r.frees (touched op))
-      | none => (st, "bad-op")
+      | some r =>
+        let pp' := ptrAdvance pp st r.st op
+        ((r.st, pp'), line r.st r.ret r.allocs r.frees (touched op) ++ (if pp'.ok then "" else " ptr-diverges"))
+      | none => (stp, "bad-op")
 
 end Nstd.Seq
 
-def main : IO Unit := Nstd.Common.ioLoop ({} : Nstd.Seq.State) Nstd.Seq.stepLine
+def main : IO Unit := Nstd.Common.ioLoop (({}, {}) : Nstd.Seq.State × Nstd.Seq.PtrPair) Nstd.Seq.stepLine
